@@ -25,6 +25,7 @@ type c09World struct {
 	user  string              // the file that uses the globals
 	uses  map[string][2]int   // global name → (line, col) of a use in the user file
 	tieMod bool               // two equally ranked module files
+	sibMod bool               // same-named modules in sibling directories, required from inside one of them
 }
 
 // genC09World: files defining globals, some of them in several files:
@@ -94,6 +95,14 @@ func genC09World(r *lib.Rng) *c09World {
 		w.files["ma/mod.lua"] = "local M = {}\nM.who = 1\nreturn M\n"
 		w.files["mb/mod.lua"] = "local M = {}\nM.who = 2\nreturn M\n"
 		u = append(u, "local m = require(\"mod\")", "print(m.who)")
+	}
+	if r.Chance(1, 2) {
+		// the requiring file shares its directory with one candidate: that one must always win
+		w.sibMod = true
+		for i, d := range []string{"sa", "sb", "sc", "sd"} {
+			w.files[d+"/util.lua"] = fmt.Sprintf("local M = {}\nM.who = %d\nfunction M.run(%s) end\nreturn M\n", i, strings.Repeat("p,", i)+"q")
+		}
+		w.files["sa/main2.lua"] = "local u = require(\"util\")\nprint(u.who)\nu.run(1, 2)\n"
 	}
 	w.user = "user.lua"
 	w.files[w.user] = strings.Join(u, "\n") + "\n"
@@ -173,6 +182,19 @@ func c09Observe(dir string, w *c09World, order []string) (map[string]string, err
 		}
 		obs["modmember"] = d
 	}
+	if w.sibMod {
+		sess.DidOpen("sa/main2.lua", w.files["sa/main2.lua"])
+		sess.Sync()
+		locs, err := sess.Definition("sa/main2.lua", 1, len("print(u."))
+		if err != nil {
+			return nil, err
+		}
+		d := "-"
+		if len(locs) > 0 {
+			d = sess.Rel(locs[0].URI)
+		}
+		obs["sibmember"] = d
+	}
 	ws, err := sess.WorkspaceSymbol("GG")
 	if err != nil {
 		return nil, err
@@ -202,7 +224,7 @@ func runC09(res *lib.Result, tier string, seed int64, args []string) error {
 	if tier == "thorough" {
 		nW, reps = 400, 8
 	}
-	res.Rule = "workspaces of 2-4 files defining 2-5 globals, each in one or two files (both at top level on different lines; on the same line number; nested in a do-block earlier vs top level later and the reverse), a user file calling every global, optionally two equally ranked module files; each workspace is analysed 5 (thorough: 8) times with GOMAXPROCS in {1,2,16}, shuffled file creation order and the Go runtime's random map iteration; normalised diagnostics of every file, definition / hover / references of every global use, workspace and document symbols must be identical in all runs; for a global with a dominating definition (Lean: Merge.dominantOf, theorem dominant_wins_any_order) go-to-definition must lead to it in every run; non-trivial = the workspace has a global defined in two files; distinct by workspace"
+	res.Rule = "workspaces of 2-4 files defining 2-5 globals, each in one or two files (both at top level on different lines; on the same line number; nested in a do-block earlier vs top level later and the reverse), a user file calling every global, optionally two equally ranked module files, optionally four same-named modules in sibling directories required from inside one of them; each workspace is analysed 5 (thorough: 8) times with GOMAXPROCS in {1,2,16}, shuffled file creation order and the Go runtime's random map iteration; normalised diagnostics of every file, definition / hover / references of every global use, workspace and document symbols must be identical in all runs; for a global with a dominating definition (Lean: Merge.dominantOf, theorem dominant_wins_any_order) go-to-definition must lead to it in every run; non-trivial = the workspace has a global defined in two files; distinct by workspace"
 	drv, err := lib.StartDriver()
 	if err != nil {
 		return err
@@ -275,6 +297,9 @@ func runC09(res *lib.Result, tier string, seed int64, args []string) error {
 				if obs["def:"+g] != want {
 					res.AddViolation("impl-vs-model", fmt.Sprintf("go-to-definition of %s leads to %s, the dominating definition is %s", g, obs["def:"+g], want), caseText, false)
 				}
+			}
+			if w.sibMod && obs["sibmember"] != "sa/util.lua" {
+				res.AddViolation("impl-vs-model", fmt.Sprintf("require(\"util\") from sa/main2.lua loads %s; the candidate in the same directory (sa/util.lua) has the strictly best score (C18 model)", obs["sibmember"]), caseText, false)
 			}
 			if first == nil {
 				first = obs
